@@ -72,7 +72,7 @@ func verifLemmaBoundingBoxContains(lon, lat, minLon, minLat, maxLon, maxLat floa
 //@ func compareGeo
 //@   props C18
 //@   mode bv
-//@   ensures implies(math.Abs(a-b) <= 0.000001, result == 0) && implies(!(math.Abs(a-b) <= 0.000001), result == a - b)
+//@   ensures implies(math.Abs(a-b) <= 0.000001, result == 0) && implies(!(math.Abs(a-b) <= 0.000001), result == a - b || (isNaN(a-b) && isNaN(result)))
 
 // Scaling a coordinate of the valid range to its 32-bit cell number stays below 2^32 (what
 // numeric.Interleave needs). (Monotonicity of the scaling is NOT claimed: the solvers do not decide
